@@ -1,6 +1,8 @@
 package models
 
-// DedupeItems dedupes items from any level, keeping in priority a Completed item
+// DedupeItems dedupes items from any level, keeping in priority an item that has already been
+// processed (any non-fresh item): a fresh item has no children, so dropping it never discards
+// a subtree, whereas dropping a processed item would drop its children (and their URLs) with it
 func (i *Item) DedupeItems() error {
 	if !i.IsSeed() {
 		return ErrNotASeed
@@ -16,7 +18,7 @@ func (i *Item) DedupeItems() error {
 			continue
 		}
 		if existing, ok := urls[node.url.String()]; ok {
-			if existing.status != ItemCompleted && !existing.IsSeed() && node.status == ItemCompleted { // Keep the completed item
+			if existing.status == ItemFresh && !existing.IsSeed() && node.status != ItemFresh { // Keep the processed item
 				existing.parent.RemoveChild(existing)
 				urls[node.url.String()] = node
 			} else {
